@@ -111,3 +111,40 @@ func init() {
 		p.Tail()
 	}})
 }
+
+// A directory whose names add up to far more bytes than any plausible bound on a name cache (6000 names of 104-108
+// bytes, 0.6 MB): whatever is cached or not, names at both ends and in the middle are removed, renamed, renamed over
+// and looked up, before and after a restart.
+func init() {
+	Probes = append(Probes, Probe{"removals-in-a-directory-of-long-names", []string{"C11", "C13", "C10"}, 24000, func(p *P) {
+		d := p.Mkdir(p.Root, "long").RFh
+		pre := strings.Repeat("n", 104)
+		p.Bulk(d, pre, 6000)
+		p.Create(p.Root, "x")
+		p.Remove(d, pre+"5999")
+		p.Remove(d, pre+"0")
+		p.Remove(d, pre+"3000")
+		p.Rename(d, pre+"5990", d, "short")
+		p.Rename(d, pre+"2600", d, pre+"x")
+		p.Rename(p.Root, "x", d, pre+"5980") // over an existing name
+		p.Rename(d, pre+"1", p.Root, "out")
+		p.Create(d, pre+"5999") // again
+		for _, n := range []string{pre + "5998", pre + "5990", pre + "2622", pre + "2623", pre + "5980", pre + "x", "short", pre + "0"} {
+			p.Lookup(d, n)
+		}
+		p.Enumerate(d, false, 8000, 6)
+		p.S.WaitIdle()
+		p.T.Emit(TakeSnap(p.S, "run", true))
+		if !p.Restart() {
+			return
+		}
+		p.Remove(d, pre+"5997")
+		p.Remove(d, pre+"2")
+		p.Lookup(d, pre+"5996")
+		p.Rename(d, pre+"5996", d, "short") // over
+		p.Create(d, pre+"new")
+		p.S.WaitIdle()
+		p.T.Emit(TakeSnap(p.S, "run", true))
+		p.Tail()
+	}})
+}
